@@ -739,46 +739,53 @@ def pattern_i32_to_i32(context, tree, c0):
     return c0
 
 
+def sign_extend_reg(context, value, bits):
+    """Sign extend the low bits of a value into a new register"""
+    d = context.new_reg(RiscvRegister)
+    context.emit(Slli(d, value, 32 - bits))
+    context.emit(Srai(d, d, 32 - bits))
+    return d
+
+
+def zero_extend_reg(context, value, bits):
+    """Zero extend the low bits of a value into a new register"""
+    d = context.new_reg(RiscvRegister)
+    context.emit(Slli(d, value, 32 - bits))
+    context.emit(Srli(d, d, 32 - bits))
+    return d
+
+
+# The extended value goes into a new register, the operand may be used again:
 @isa.pattern("reg", "I8TOI16(reg)", size=4)
 @isa.pattern("reg", "I8TOU16(reg)", size=4)
 @isa.pattern("reg", "I8TOI32(reg)", size=4)
 @isa.pattern("reg", "I8TOU32(reg)", size=4)
 def pattern_i8_to_i32(context, tree, c0):
-    context.emit(Slli(c0, c0, 24))
-    context.emit(Srai(c0, c0, 24))
-    return c0
+    return sign_extend_reg(context, c0, 8)
 
 
 @isa.pattern("reg", "I16TOI32(reg)", size=4)
 @isa.pattern("reg", "I16TOU32(reg)", size=4)
 def pattern_i16_to_i32(context, tree, c0):
-    context.emit(Slli(c0, c0, 16))
-    context.emit(Srai(c0, c0, 16))
-    return c0
+    return sign_extend_reg(context, c0, 16)
 
 
 @isa.pattern("reg", "U8TOU16(reg)", size=4)
 @isa.pattern("reg", "U8TOI16(reg)", size=4)
 def pattern_8_to_16(context, tree, c0):
-    context.emit(Slli(c0, c0, 24))
-    context.emit(Srli(c0, c0, 24))
-    return c0
+    return zero_extend_reg(context, c0, 8)
 
 
 @isa.pattern("reg", "U8TOU32(reg)", size=4)
 @isa.pattern("reg", "U8TOI32(reg)", size=4)
 def pattern_8_to_32(context, tree, c0):
-    context.emit(Slli(c0, c0, 24))
-    context.emit(Srli(c0, c0, 24))
-    return c0
+    return zero_extend_reg(context, c0, 8)
 
 
 @isa.pattern("reg", "U16TOU32(reg)", size=4)
 @isa.pattern("reg", "U16TOI32(reg)", size=4)
 def pattern_16_to_32(context, tree, c0):
-    context.emit(Slli(c0, c0, 16))
-    context.emit(Srli(c0, c0, 16))
-    return c0
+    return zero_extend_reg(context, c0, 16)
 
 
 @isa.pattern("reg", "I32TOI8(reg)", size=0)
@@ -1235,18 +1242,14 @@ def pattern_shr_u32(context, tree, c0, c1):
 @isa.pattern("reg", "SHRI8(reg, reg)", size=2)
 def pattern_shr_i8(context, tree, c0, c1):
     d = context.new_reg(RiscvRegister)
-    context.emit(Slli(c0, c0, 24))
-    context.emit(Srai(c0, c0, 24))
-    context.emit(Sra(d, c0, c1))
+    context.emit(Sra(d, sign_extend_reg(context, c0, 8), c1))
     return d
 
 
 @isa.pattern("reg", "SHRI16(reg, reg)", size=2)
 def pattern_shr_i16(context, tree, c0, c1):
     d = context.new_reg(RiscvRegister)
-    context.emit(Slli(c0, c0, 16))
-    context.emit(Srai(c0, c0, 16))
-    context.emit(Sra(d, c0, c1))
+    context.emit(Sra(d, sign_extend_reg(context, c0, 16), c1))
     return d
 
 
@@ -1341,22 +1344,6 @@ def pattern_rem_i32(context, tree, c0, c1):
 def pattern_rem_u32(context, tree, c0, c1):
     d = context.new_reg(RiscvRegister)
     context.emit(Remu(d, c0, c1))
-    return d
-
-
-def sign_extend_reg(context, value, bits):
-    """Sign extend the low bits of a value into a new register"""
-    d = context.new_reg(RiscvRegister)
-    context.emit(Slli(d, value, 32 - bits))
-    context.emit(Srai(d, d, 32 - bits))
-    return d
-
-
-def zero_extend_reg(context, value, bits):
-    """Zero extend the low bits of a value into a new register"""
-    d = context.new_reg(RiscvRegister)
-    context.emit(Slli(d, value, 32 - bits))
-    context.emit(Srli(d, d, 32 - bits))
     return d
 
 
